@@ -104,6 +104,20 @@ def replayer(bld):
         b = dict(base); b['ops'] = [c['query']]; b['prof0'] = cur
         if zl: b['z'] = zl
         key = {'w': 'wake', 'p': 'padded', 'c': 'csr'}[c['query']]
+        def attempt(a, b):
+            ra = native_run(bld, a, 'c18a'); rb = native_run(bld, b, 'c18b')
+            va = ra[key]; va = va[-1] if isinstance(va[0], list) else va; vb = rb[key]
+            same = all(struct.pack('<f', x) == struct.pack('<f', y) for x, y in zip(va, vb))
+            if key == 'csr' and same:
+                pa = ra['csrpower']; pa = pa[-1] if isinstance(pa[0], list) else pa
+                same = pa == rb['csrpower']
+            return same, max(abs(x - y) for x, y in zip(va, vb)), max(abs(y) for y in vb)
+        same, dev, mx = attempt(a, b)
+        if same and zl:
+            # the model's impedance values (often zeros where the solver did not care) may hide a dependence on the history that a generic table shows: second attempt with the harness' own random table
+            a2 = {k: v for k, v in a.items() if k not in ('z', 'zlast')}; b2 = {k: v for k, v in b.items() if k != 'z'}
+            same, dev, mx = attempt(a2, b2)
+        return (not same, 'native: %s after history %s differs from a fresh object by %.3g (max |x| %.3g)' % (key, ''.join(c['history']), dev, mx))
         ra = native_run(bld, a, 'c18a'); rb = native_run(bld, b, 'c18b')
         va = ra[key]; va = va[-1] if isinstance(va[0], list) else va; vb = rb[key]
         same = all(struct.pack('<f', x) == struct.pack('<f', y) for x, y in zip(va, vb))
